@@ -107,6 +107,129 @@ theorem unaddressed_empty (shared : List Str) (rows : List RowXML) (g0 : Grid) (
   rw [this]
   simp
 
+/-- **text_line_field**: in the tab-separated text of a sheet, line `r` / field `c` is exactly
+the displayed text of grid cell `(r,c)` — for every grid whose cell texts contain no tab or
+newline (the property's proviso). -/
+theorem text_line_field (g : Grid) (hg : g ≠ []) (hrows : ∀ row ∈ g, row ≠ [])
+    (hclean : ∀ row ∈ g, ∀ cell ∈ row, 9 ∉ cellText cell ∧ 10 ∉ cellText cell) (r c : Nat) :
+    ((splitOn 10 (sheetText g))[r]?).bind (fun line => (splitOn 9 line)[c]?) =
+      (g.get r c).map cellText := by
+  unfold sheetText
+  rw [splitOn_intercalate 10 _ (by simpa using hg)]
+  · simp only [List.getElem?_map, Grid.get]
+    cases hr : g[r]? with
+    | none => simp
+    | some row =>
+      have hrow : row ∈ g := List.mem_of_getElem? hr
+      simp only [Option.map_some, Option.bind_some]
+      rw [splitOn_intercalate 9 _ (by simpa using hrows row hrow)]
+      · simp [List.getElem?_map]
+      · intro x hx
+        obtain ⟨cell, hcell, rfl⟩ := List.mem_map.mp hx
+        exact (hclean row hrow cell hcell).1
+  · intro line hline
+    obtain ⟨row, hrow, rfl⟩ := List.mem_map.mp hline
+    apply not_mem_intercalate 9 10 _ (by decide)
+    intro x hx
+    obtain ⟨cell, hcell, rfl⟩ := List.mem_map.mp hx
+    exact (hclean row hrow cell hcell).2
+
+/-- effect of the merge pass on one position: the marks of exactly the region positions equal
+to it, applied in the order of the double loop -/
+theorem get_applyRegion (g : Grid) (m : Region) (r c : Nat) :
+    (applyRegion g m).get r c = (g.get r c).map fun cell =>
+      ((regionCells m).filter fun p => p.1 = r ∧ p.2 = c).foldl (fun cell rc => markCell m rc cell) cell := by
+  unfold applyRegion
+  generalize regionCells m = ps
+  induction ps generalizing g with
+  | nil => simp
+  | cons p ps ih =>
+    simp only [List.foldl_cons]
+    rw [ih, Grid.get_modify]
+    by_cases h : p.1 = r ∧ p.2 = c
+    · obtain ⟨h1, h2⟩ := h
+      subst h1; subst h2
+      simp [List.filter_cons]
+      rfl
+    · simp only [h, if_false]
+      rw [List.filter_cons]
+      simp [h]
+
+theorem mem_regionCells (m : Region) (r c : Nat) :
+    (r, c) ∈ regionCells m ↔ (m.sr ≤ r ∧ r ≤ m.er) ∧ (m.sc ≤ c ∧ c ≤ m.ec) := by
+  unfold regionCells
+  simp only [List.mem_flatMap, List.mem_range, List.mem_map, Prod.mk.injEq]
+  constructor
+  · rintro ⟨dr, hdr, dc, hdc, h1, h2⟩
+    omega
+  · rintro ⟨⟨h1, h2⟩, h3, h4⟩
+    exact ⟨r - m.sr, by omega, c - m.sc, by omega, by omega, by omega⟩
+
+/-- marking a cell any positive number of times: value kept, merged set, root iff top-left -/
+theorem mark_fold (m : Region) (rc : Nat × Nat) (k : Nat) (cell : Cell) :
+    let res := (List.replicate (k + 1) rc).foldl (fun cell p => markCell m p cell) cell
+    res.value = cell.value ∧ res.merged = true ∧
+      (res.root = true ↔ (rc.1 = m.sr ∧ rc.2 = m.sc) ∨ cell.root = true) := by
+  induction k generalizing cell with
+  | zero =>
+    simp only [List.replicate, List.foldl_cons, List.foldl_nil, markCell]
+    by_cases hroot : rc.1 = m.sr ∧ rc.2 = m.sc <;> simp [hroot]
+  | succ k ih =>
+    rw [List.replicate_succ, List.foldl_cons]
+    have := ih (markCell m rc cell)
+    simp only at this ⊢
+    obtain ⟨h1, h2, h3⟩ := this
+    refine ⟨?_, h2, ?_⟩
+    · rw [h1]; unfold markCell; split <;> rfl
+    · rw [h3]; unfold markCell
+      by_cases hroot : rc.1 = m.sr ∧ rc.2 = m.sc <;> simp [hroot]
+
+theorem filter_pos_replicate (ps : List (Nat × Nat)) (r c : Nat) (hmem : (r, c) ∈ ps) :
+    ∃ k, (ps.filter fun p => p.1 = r ∧ p.2 = c) = List.replicate (k + 1) (r, c) := by
+  induction ps with
+  | nil => cases hmem
+  | cons p ps ih =>
+    rw [List.filter_cons]
+    by_cases hp : p = (r, c)
+    · subst hp
+      simp only [and_self, decide_true, if_true]
+      by_cases hrest : (r, c) ∈ ps
+      · obtain ⟨k, hk⟩ := ih hrest
+        exact ⟨k + 1, by rw [hk]; rfl⟩
+      · refine ⟨0, ?_⟩
+        have : ps.filter (fun p => p.1 = r ∧ p.2 = c) = [] := by
+          rw [List.filter_eq_nil_iff]
+          intro q hq hqq
+          have : q = (r, c) := by
+            simp at hqq; exact Prod.ext hqq.1 hqq.2
+          exact hrest (this ▸ hq)
+        rw [this]; rfl
+    · have hp' : ¬ (p.1 = r ∧ p.2 = c) := fun h => hp (Prod.ext h.1 h.2)
+      simp only [hp', decide_false, Bool.false_eq_true, if_false]
+      rcases List.mem_cons.mp hmem with h | h
+      · exact absurd h.symm hp
+      · exact ih h
+
+/-- **merge_root_only**: after the merge pass for a region, every covered cell keeps its value
+field but is marked merged, is a root exactly if it is the region's top-left (or was a root
+already), and — unless it is a root — shows nothing in the text output, whatever value the
+file put there. -/
+theorem merge_root_only (g : Grid) (m : Region) (r c : Nat) (cell : Cell)
+    (hin : (m.sr ≤ r ∧ r ≤ m.er) ∧ (m.sc ≤ c ∧ c ≤ m.ec)) (hcell : g.get r c = some cell) :
+    ∃ cell', (applyRegion g m).get r c = some cell' ∧ cell'.value = cell.value ∧ cell'.merged = true ∧
+      (cell'.root = true ↔ (r = m.sr ∧ c = m.sc) ∨ cell.root = true) ∧
+      ((¬ (r = m.sr ∧ c = m.sc) ∧ cell.root = false) → cellText cell' = []) := by
+  rw [get_applyRegion, hcell]
+  obtain ⟨k, hk⟩ := filter_pos_replicate (regionCells m) r c ((mem_regionCells m r c).mpr hin)
+  rw [hk]
+  obtain ⟨h1, h2, h3⟩ := mark_fold m (r, c) k cell
+  refine ⟨_, rfl, h1, h2, h3, ?_⟩
+  intro ⟨hnr, hcr⟩
+  have hroot : ¬ ((List.replicate (k + 1) (r, c)).foldl (fun cell p => markCell m p cell) cell).root = true := by
+    rw [h3]; simp [hnr, hcr]
+  unfold cellText
+  simp [h2, hroot]
+
 /-- non-vacuity: a two-row sheet written out of order, B2 then A1 -/
 example :
     let rows : List RowXML :=
